@@ -804,7 +804,12 @@ class Context(object):
         elif not ismacro(value):
             raise ValueError('"%s" does not implement the macro interface' % key)
 
-        self.contexts[0][macroName(value)] = value
+        name = macroName(value)
+        self.contexts[0][name] = value
+
+        # A global definition replaces the local ones in the open groups
+        for context in self.contexts[1:]:
+            dict.pop(context, name, None)
 
     __setitem__ = addGlobal
 
